@@ -236,3 +236,40 @@ def coq_case(rec):
         return None
     Bst = coq_storage(ops[1]) if len(ops) > 1 else coq_storage(ops[0])
     return coq_lit((rec['mods'], code, coq_storage(A), Bst, coq_storage(rec['result']), coq_dense(rec['result'])))
+
+
+def coq_case2(rec):
+    """Coq literal (type case2 of Model/TensorProgCheck.v) of one recorded iswapaxes / gauge_total_charge / one-axis take_slice,
+    or None if outside the fragment the model covers."""
+    from common import coq_lit
+    o = rec['args']
+    name = rec['op']
+    A = rec['operands'][0]
+    rank = len(A['legs'])
+
+    def ax(x):
+        if isinstance(x, str):
+            return A['labels'].index(x) if x in A['labels'] else None
+        x = int(x)
+        return x + rank if x < 0 else x
+    if name == 'iswapaxes':
+        i, j = ax(o['axis1']), ax(o['axis2'])
+        if i is None or j is None:
+            return None
+        code = (6, [i, j], [])
+    elif name == 'gauge_total_charge':
+        i = ax(o['axis'])
+        if i is None:
+            return None
+        nqc = o['new_qconj'] if o['new_qconj'] is not None else A['legs'][i]['qconj']
+        newq = [0] * len(rec['mods']) if o['newqtotal'] is None else [int(c) for c in o['newqtotal']]
+        code = (7, [i, int(nqc)], newq)
+    elif name == 'getitem' and o.get('take_slice') and not isinstance(o.get('indices'), list) and not isinstance(o.get('axes'), list):
+        i = ax(o['axes'])
+        idx = int(o['indices'])
+        if i is None or idx < 0:
+            return None
+        code = (8, [i, idx], [])
+    else:
+        return None
+    return coq_lit((rec['mods'], code, coq_storage(A), coq_storage(rec['result']), coq_dense(rec['result'])))
